@@ -7,7 +7,7 @@ use crate::report::{par_run, Report};
 use crate::rng::Rng;
 use serde_json::json;
 
-pub const RULE: &str = "All 22 indicators, every period 1..=64 (every period slot for multi-period ones, others varied), multipliers {0,-1,1e308,NaN,2}: seeded op programs of at least 3n+3 (and at least 60) client calls mixing ordinary values with NaN, +-inf, +-f64::MAX, subnormals, signed zeros, bars violating low<=close<=high, scalar and bar feeds, a second user bar type, reset, clone (clone then driven too), clone_from into a used instance built with the same or different periods, Display, Debug, period(), bincode serialize and serialize-deserialize-swap; sampled periods up to 4096; programs on Default::default() instances incl. ta::DataItem feeds and the constructors' rejection path; programs driven on a brand-new thread that constructed nothing (instance moved there, or restored there from bytes); plus long runs of 1.1*10^6 calls (4.3*10^6 thorough) for periods {1,2,3,7,64} (counters far past every wrap; 6 000 identical bars every 50 000 calls). Each call is wrapped in catch_unwind with the crate built with overflow checks and debug assertions; any panic or serialization error is a violation. Non-trivial: a program with >= 3n+3 next calls containing at least one non-finite or extreme input; distinct by construction (indicator, period tuple, repetition).";
+pub const RULE: &str = "All 22 indicators, every period 1..=64 (every period slot for multi-period ones, others varied), multipliers {0,-1,1e308,NaN,2}: seeded op programs of at least 3n+3 (and at least 60) client calls mixing ordinary values with NaN, +-inf, +-f64::MAX, subnormals, signed zeros, bars violating low<=close<=high, scalar and bar feeds, a second user bar type, reset, clone (clone then driven too), clone_from into a used instance built with the same or different periods, Display, Debug, period(), bincode serialize and serialize-deserialize-swap; sampled periods up to 4096; periods 2^31 .. usize::MAX for the allocation-free indicators; Display and Debug also with width / fill / alignment / precision flags; programs on Default::default() instances incl. ta::DataItem feeds and the constructors' rejection path; programs driven on a brand-new thread that constructed nothing (instance moved there, or restored there from bytes); plus long runs of 1.1*10^6 calls (4.3*10^6 thorough) for periods {1,2,3,7,64} (counters far past every wrap; 6 000 identical bars every 50 000 calls). Each call is wrapped in catch_unwind with the crate built with overflow checks and debug assertions; any panic or serialization error is a violation. Non-trivial: a program with >= 3n+3 next calls containing at least one non-finite or extreme input; distinct by construction (indicator, period tuple, repetition).";
 
 const MULTS: [f64; 5] = [0.0, -1.0, 1e308, f64::NAN, 2.0];
 
@@ -212,6 +212,24 @@ fn run_sampled_large(ctx: &Ctx) -> Report {
     })
 }
 
+/// the allocation-free indicators accept any period up to usize::MAX ("large periods" is not only 4096)
+fn run_huge_periods(ctx: &Ctx) -> Report {
+    let jobs = crate::common::huge_period_params();
+    let seed = ctx.seed;
+    par_run(jobs, ctx.threads, move |p, rep| {
+        if Inst::try_new(p).is_err() {
+            return; // a constructor that rejects or panics on a valid period is C11's claim
+        }
+        for r in 0..4u64 {
+            let mut rng = Rng::derive(seed, 0xC12E, p.p[0] as u64 ^ (p.p[1] as u64).rotate_left(17) ^ r);
+            let ops: Vec<Op> = (0..80).map(|_| gen_op(&mut rng, p.kind, 0.1)).collect();
+            run_program(rep, p, &ops, "huge_period");
+            rep.count("programs_huge_period");
+            rep.distinct_by_construction += 1;
+        }
+    })
+}
+
 fn halted(i: usize) -> bool {
     i >= 20_000 && i % 50_000 < 6_000
 }
@@ -373,6 +391,9 @@ pub fn run(ctx: &Ctx) -> Report {
     if ctx.phase_enabled("long") {
         rep.merge(run_long(ctx));
     }
+    if ctx.phase_enabled("huge") {
+        rep.merge(run_huge_periods(ctx));
+    }
     if ctx.only.is_none() {
         for n in 1..=64 {
             let key = format!("period_slot_covered.{}", n);
@@ -380,7 +401,7 @@ pub fn run(ctx: &Ctx) -> Report {
                 rep.inconclusive.push(format!("coverage floor missed: {} = 0", key));
             }
         }
-        for key in ["programs_large_period", "long_runs", "programs_on_default_instances", "programs_on_foreign_thread"] {
+        for key in ["programs_large_period", "programs_huge_period", "long_runs", "programs_on_default_instances", "programs_on_foreign_thread"] {
             if rep.counters.get(key).copied().unwrap_or(0) == 0 {
                 rep.inconclusive.push(format!("coverage floor missed: {} = 0", key));
             }
